@@ -150,7 +150,8 @@ def _work_rand(args):
                 axbuf[...] = axis
                 axis = axbuf
                 try:
-                    rel = rot_relations(rotation_matrix, axis, theta, rng)
+                    with common.caller_state(tid + len(ev)):
+                        rel = rot_relations(rotation_matrix, axis, theta, rng)
                 except Exception as exc:
                     rel = dict(finite=False, orth=False, det=False, axis_fixed=False, trace=False, transpose=False,
                                compose=False, scale_indep=False, exc=type(exc).__name__)
@@ -206,7 +207,8 @@ def _work_rand(args):
                     p0 = np.array([0.3, 0.2, 0.1])
                     p1, p2 = p0 + d, p0 + 2 * d
                 try:
-                    rel = frame_relations(calcule_base, [p0, p1, p2])
+                    with common.caller_state(tid + len(ev)):
+                        rel = frame_relations(calcule_base, [p0, p1, p2])
                 except Exception as exc:
                     rel = dict(finite=False, collinear=False, orthonormal=False, right_handed=False, first=False,
                                normal=False, origin=False, intact=False, exc=type(exc).__name__)
